@@ -32,7 +32,9 @@ CONSTANTS Threads,           \* set of thread ids (strings)
           UnlistByIdentity,
           AttachEarly,
           KeepHist,          \* TRUE: hist/snaps record the whole history (replay generation)
-          OpKinds            \* subset of {"inst","close","lookup","rtclose","compile","hostcompile"}
+          OpKinds,           \* subset of {"inst","close","lookup","rtclose","compile","hostcompile"}
+          StartKinds         \* subset of {"none","exit"}: what the exported _start of an instantiated module does ("exit": a host
+                             \* function it calls panics with an exit error WITHOUT closing the module)
 
 VARIABLES rtClosed,          \* Runtime.closed # 0
           storeClosed,       \* Store.nameToModule = nil
@@ -86,10 +88,10 @@ GotoSnap(t, rec) == /\ pc' = [pc EXCEPT ![t] = rec]
 (* ---------------------------------------------------------------- begin an operation *)
 Begin(t) ==
   /\ pc[t].op = "idle" /\ ops[t] < MaxOps
-  /\ \/ \E n \in Names, w \in BOOLEAN :
+  /\ \/ \E n \in Names, w \in BOOLEAN, st \in StartKinds :
           /\ "inst" \in OpKinds
           /\ Len(mods) + Cardinality({u \in Threads : pc[u].op = "inst" /\ pc[u].m = 0}) < MaxMods
-          /\ GotoSnap(t, [op |-> "inst", stage |-> "check", name |-> n, want |-> w, m |-> 0, err |-> ""])
+          /\ GotoSnap(t, [op |-> "inst", stage |-> "check", name |-> n, want |-> w, m |-> 0, err |-> "", start |-> st])
      \/ \E m \in ModIds :
           /\ "close" \in OpKinds /\ mods[m].handle      \* somebody was handed this module
           /\ GotoSnap(t, [op |-> "close", stage |-> "cas", m |-> m])
@@ -106,7 +108,7 @@ Begin(t) ==
 InstCheck(t) ==
   /\ pc[t].op = "inst" /\ pc[t].stage = "check"
   /\ IF rtClosed
-     THEN Finish(t, [op |-> "inst", name |-> pc[t].name, want |-> pc[t].want, res |-> "closed", m |-> 0])
+     THEN Finish(t, [op |-> "inst", name |-> pc[t].name, want |-> pc[t].want, start |-> pc[t].start, res |-> "closed", m |-> 0])
      ELSE Goto(t, [pc[t] EXCEPT !.stage = "register"])
   /\ UNCHANGED <<rtClosed, storeClosed, owner, listed, lock, mods>>
 
@@ -123,7 +125,7 @@ Register(t) ==          \* Store.registerModule, under the write lock; the insta
      IF r = "ok"
      THEN /\ owner' = IF n = "" THEN owner ELSE [owner EXCEPT ![n] = m]
           /\ listed' = listed \cup {m}
-          /\ mods' = Append(mods, [m1 EXCEPT !.reg = TRUE, !.handle = TRUE])
+          /\ mods' = Append(mods, [m1 EXCEPT !.reg = TRUE, !.handle = (pc[t].start = "none")])      \* nobody is handed a module whose start fails
           /\ Goto(t, [pc[t] EXCEPT !.stage = "attach", !.m = m])
      ELSE /\ UNCHANGED <<owner, listed>>
           /\ mods' = Append(mods, m0)
@@ -131,10 +133,13 @@ Register(t) ==          \* Store.registerModule, under the write lock; the insta
   /\ UNCHANGED <<rtClosed, storeClosed, lock>>
 
 (* the three steps of m.Close() after a failed registration; m was never visible *)
-FailCAS(t) ==
+FailCAS(t) ==           \* a module that was never visible is open here; one whose start failed may have been closed by the runtime meanwhile
   /\ pc[t].op = "inst" /\ pc[t].stage = "failcas"
-  /\ mods' = [mods EXCEPT ![pc[t].m].closed = 1]
-  /\ Goto(t, [pc[t] EXCEPT !.stage = "failunlist"])
+  /\ IF mods[pc[t].m].closed = 0
+     THEN /\ mods' = [mods EXCEPT ![pc[t].m].closed = 1]
+          /\ Goto(t, [pc[t] EXCEPT !.stage = "failunlist"])
+     ELSE /\ UNCHANGED mods
+          /\ Finish(t, [op |-> "inst", name |-> pc[t].name, want |-> pc[t].want, start |-> pc[t].start, res |-> pc[t].err, m |-> 0])
   /\ UNCHANGED <<rtClosed, storeClosed, owner, listed, lock>>
 
 DoUnlist(m) ==          \* Store.deleteModule(m), under the write lock
@@ -158,7 +163,7 @@ CloseResOf(ms, m) ==    \* ensureResourcesClosed
 FailRes(t) ==
   /\ pc[t].op = "inst" /\ pc[t].stage = "failres"
   /\ mods' = CloseResOf(mods, pc[t].m)
-  /\ Finish(t, [op |-> "inst", name |-> pc[t].name, want |-> pc[t].want, res |-> pc[t].err, m |-> 0])
+  /\ Finish(t, [op |-> "inst", name |-> pc[t].name, want |-> pc[t].want, start |-> pc[t].start, res |-> pc[t].err, m |-> 0])
   /\ UNCHANGED <<rtClosed, storeClosed, owner, listed, lock>>
 
 Attach(t) ==            \* runtime.go: mod.CloseNotifier = closeNotifier (lock free, after Register)
@@ -166,7 +171,11 @@ Attach(t) ==            \* runtime.go: mod.CloseNotifier = closeNotifier (lock f
   /\ LET m == pc[t].m IN
      mods' = IF ~AttachEarly /\ pc[t].want /\ mods[m].notifier = "unset"
              THEN [mods EXCEPT ![m].notifier = "set"] ELSE mods
-  /\ Finish(t, [op |-> "inst", name |-> pc[t].name, want |-> pc[t].want, res |-> "ok", m |-> pc[t].m])
+  /\ IF pc[t].start = "none"
+     THEN Finish(t, [op |-> "inst", name |-> pc[t].name, want |-> pc[t].want, start |-> pc[t].start, res |-> "ok", m |-> pc[t].m])
+     \* the exported _start runs now, on the registered module, and fails with an exit error: InstantiateModule closes the
+     \* module (the same three steps) and returns the error - nothing stays registered under the name
+     ELSE Goto(t, [pc[t] EXCEPT !.stage = "failcas", !.err = "exit"])
   /\ UNCHANGED <<rtClosed, storeClosed, owner, listed, lock>>
 
 (* ---------------------------------------------------------------- close a module *)
@@ -248,7 +257,7 @@ CompileAdd(t) ==        \* the engine may have been closed since the check: an e
 
 InstEngineClosed(t) ==  \* Store.instantiate fails because the engine was closed after the check
   /\ pc[t].op = "inst" /\ pc[t].stage = "register" /\ storeClosed
-  /\ Finish(t, [op |-> "inst", name |-> pc[t].name, want |-> pc[t].want, res |-> "closed", m |-> 0])
+  /\ Finish(t, [op |-> "inst", name |-> pc[t].name, want |-> pc[t].want, start |-> pc[t].start, res |-> "closed", m |-> 0])
   /\ UNCHANGED <<rtClosed, storeClosed, owner, listed, lock, mods>>
 
 Step(t) == \/ Begin(t) \/ InstCheck(t) \/ Register(t) \/ FailCAS(t) \/ FailUnlist(t)
